@@ -109,7 +109,7 @@ Notation step_ok := (hstep_z_ok gt C cget cadd Hlossy cempty Hempty).
 Theorem hinvz_unfold : forall st : hstate_z,
   HInvZ st <->
   (ZbddOK (hz_s C st) /\ ZChainOK (hz_s C st) /\
-   ZCacheOKB C (zcgetN C cget (nlevels (hz_s C st))) (hz_s C st) (hz_c C st) /\
+   ZCacheOKB C cget (hz_s C st) (hz_c C st) /\
    znofuture C cget (nlevels (hz_s C st)) (hz_c C st)).
 Proof.
   intros st. split.
@@ -121,7 +121,7 @@ Theorem hinit_z_inv : forall n, HInvZ (hinit_z n).
 Proof.
   intros n. destruct (zchain_rebuild_chain _ (emptyz_ok n)) as [B [Hc _]].
   constructor; simpl; [exact B | exact Hc | |].
-  - intros code args nums r E. unfold zcgetN in E. rewrite Hempty in E. discriminate.
+  - intros code args nums r E. rewrite Hempty in E. discriminate.
   - intros a m n' r E. rewrite Hempty in E. discriminate.
 Qed.
 
